@@ -68,7 +68,8 @@ def add_c01_monitor(prod):
 
 
 def all_terminal(prod):
-    return z3.And(*[prod.terminal(t) for t in range(prod.T)])
+    """every STARTED thread has finished (a worker of the pool that was never started has nothing to finish)"""
+    return z3.And(prod.terminal(0), *[z3.Or(z3.Not(prod.pre[f'st{t}']), prod.terminal(t)) for t in range(1, prod.T)])
 
 
 def deadlock(prod):
